@@ -65,6 +65,7 @@ type ops struct {
 	// constructor, which takes any address and port)
 	setOnto       func(netip.Addr, uint16, string) (value, string, error)
 	unmarshalOnto func(netip.Addr, uint16, []byte) (value, string, error)
+	unmarshalVia  func([]byte) (value, error) // through encoding/json (which validates and trims the document)
 }
 
 func mkOps[T addrT, P addrP[T]](role spec.AddrRole, typ string, parse func(string) (T, error), must func(string) T, from func(netip.Addr, uint16) T) ops {
@@ -84,6 +85,11 @@ func mkOps[T addrT, P addrP[T]](role spec.AddrRole, typ string, parse func(strin
 		unmarshal: func(b []byte) (value, error) {
 			var v T
 			err := P(&v).UnmarshalJSON(b)
+			return wrap(v), err
+		},
+		unmarshalVia: func(b []byte) (value, error) {
+			var v T
+			err := json.Unmarshal(b, &v)
 			return wrap(v), err
 		},
 		setOnto: func(a netip.Addr, port uint16, s string) (value, string, error) {
@@ -952,6 +958,67 @@ func main() {
 		r.Set("familyE_history_cases", nE)
 	}
 
+	// ---- family F: JSON spellings. A JSON string is the text it denotes: the same address written with
+	// \uXXXX escapes (all characters, or only the first, a dot, the colon, the last) or surrounded by
+	// insignificant white space is the same string of the form a.b.c.d[:port].
+	{
+		var nF int64
+		texts := []string{"1.2.3.4", "1.2.3.4:0", "1.2.3.4:1", "1.2.3.4:60000", "1.2.3.4:60001", "1.2.3.4:65535", "192.168.100.255:60001", "255.255.255.255:12345", "0.0.0.0:0", "0.0.0.0", "10.20.30.40:54321",
+			"1.2.3.4:65536", "1.2.3.256", "1.2.3", "x"}
+		esc := func(t string, which func(i int, c byte) bool) []byte {
+			out := []byte{'"'}
+			for i := 0; i < len(t); i++ {
+				if which(i, t[i]) {
+					out = append(out, []byte(fmt.Sprintf("\\u%04x", t[i]))...)
+				} else {
+					out = append(out, t[i])
+				}
+			}
+			return append(out, '"')
+		}
+		for ri := range roles {
+			o := &roles[ri]
+			for _, t := range texts {
+				c := spec.ClassifyAddr(o.role, t)
+				if c.Verdict == spec.AddrUnconstrained {
+					continue
+				}
+				variants := [][]byte{
+					esc(t, func(int, byte) bool { return true }),
+					esc(t, func(i int, _ byte) bool { return i == 0 }),
+					esc(t, func(_ int, ch byte) bool { return ch == '.' }),
+					esc(t, func(_ int, ch byte) bool { return ch == ':' }),
+					esc(t, func(i int, _ byte) bool { return i == len(t)-1 }),
+					append(append([]byte(" \n\t"), jsonString(t)...), " \r\n"...),
+				}
+				for _, doc := range variants {
+					nF++
+					var v value
+					var err error
+					name := fmt.Sprintf("json.Unmarshal(%s) into a %s", doc, o.typ)
+					if p, msg, frame := vk.Guard(func() { v, err = o.unmarshalVia(doc) }); p {
+						report("C15/"+o.typ+".UnmarshalJSON/json-spelling/panic/"+frame, o, t, name+" panicked: "+msg)
+						continue
+					}
+					switch c.Verdict {
+					case spec.AddrMustAccept:
+						if err != nil {
+							report("C15/"+o.typ+".UnmarshalJSON/json-spelling/rejects-valid", o, t, fmt.Sprintf("%s (the JSON string %q) rejected: %v", name, t, err))
+						} else if !sameAddr(v.addr, c.IP) || v.port != c.Port {
+							report("C15/"+o.typ+".UnmarshalJSON/json-spelling/wrong-value", o, t, fmt.Sprintf("%s = %s port %d, want %s port %d", name, v.addr, v.port, quad(c.IP), c.Port))
+						}
+					case spec.AddrMustReject:
+						if err == nil {
+							report("C15/"+o.typ+".UnmarshalJSON/json-spelling/accepts-"+c.Reason.String(), o, t, fmt.Sprintf("%s accepted as %s port %d", name, v.addr, v.port))
+						}
+					}
+				}
+			}
+		}
+		total.evals += nF
+		r.Set("familyF_json_spelling_cases", nF)
+	}
+
 	// ---- evidence
 	r.Count(total.evals)
 	r.Distinct(distinct * int64(len(roles)))
@@ -994,7 +1061,7 @@ func main() {
 		"(B) a.b.c.d+suffix with [B1] two octet positions over {0,1,9,10,99,100,199,255,256,999,00,01} (others fixed to 12.34.56.78) and [B3] each position over 0..255, each x %d port suffixes (none, boundary ports, 65536, 99999, leading zeros, signs, blanks, empty); "+
 		"[B2] all 65536 plain-decimal ports x %s address texts; [B4] %s; "+
 		"(C) every string within edit distance %d (insert/delete/substitute over a 12-symbol alphabet incl. '[',']','%%','x',' ') of 6 valid addresses. "+
-		"Each input x 4 roles x {Parse, Set, UnmarshalJSON, MustParse}; String()->Parse and MarshalJSON->UnmarshalJSON for every accepted in-form input. (D) Set and UnmarshalJSON on receivers already holding each of 3 addresses x 6 ports (built with XxxAddrFrom, rule-violating ports included) x 29 texts incl. the receiver's own String(). (E) every ordered pair of 23 texts parsed one directly after the other through Parse, Set and UnmarshalJSON (JSON from one reused buffer). "+
+		"Each input x 4 roles x {Parse, Set, UnmarshalJSON, MustParse}; String()->Parse and MarshalJSON->UnmarshalJSON for every accepted in-form input. (D) Set and UnmarshalJSON on receivers already holding each of 3 addresses x 6 ports (built with XxxAddrFrom, rule-violating ports included) x 29 texts incl. the receiver's own String(). (F) 15 texts in 6 JSON spellings (\\uXXXX escapes, surrounding white space) through encoding/json. (E) every ordered pair of 23 texts parsed one directly after the other through Parse, Set and UnmarshalJSON (JSON from one reused buffer). "+
 		"A case is a (role, input string) pair; distinct = distinct non-empty input strings x 4 roles, counted conservatively "+
 		"(a string is counted for the first family that can contain it: B only if outside A's alphabets/length, C only if additionally not of the shape digits.digits.digits.digits[:suffix] of B; repeated entry points and round trips are evaluations, not cases)",
 		maxA1, maxA2, len(portSuffixes),
